@@ -86,11 +86,12 @@ def newRaw (sz : Nat) : E RawList :=
 
 /-- `RawList::push`: reserve, write slot `len`, `len += 1` -/
 def rawPush (sz : Nat) (l : RawList) (v : Nat) : E RawList :=
-  match (if sz > 0 then reserve sz l 1 else .ok l) with
+  match (if sz > 0 then reserve sz l (Gen.ListGuards.push_reserve l.view) else .ok l) with
   | .error f => .error f
   | .ok l1 =>
-    if l1.len + 1 > usizeMax then .error .panic
-    else .ok { l1 with elems := l1.elems.take l1.len ++ [v], len := l1.len + 1 }
+    if l1.len + Gen.ListGuards.push_len_add l1.view > usizeMax then .error .panic
+    else .ok { l1 with elems := l1.elems.take l1.len ++ [v],
+                       len := l1.len + Gen.ListGuards.push_len_add l1.view }
 
 /-- `RawList::get` followed by the read through the returned pointer -/
 def rawGet (l : RawList) (i : Nat) : E (Option Nat) :=
@@ -142,16 +143,18 @@ def rawExtend (sz : Nat) (self other : RawList) : E RawList :=
     match readAll other with
     | .error f => .error f
     | .ok xs =>
-      if self.len + other.len > usizeMax then .error .panic
-      else .ok { self with elems := self.elems.take self.len ++ xs, len := self.len + other.len }
+      if self.len + Gen.ListGuards.extend_len_add self.view other.view > usizeMax then .error .panic
+      else .ok { self with elems := self.elems.take self.len ++ xs,
+                           len := self.len + Gen.ListGuards.extend_len_add self.view other.view }
   else if other.len = 0 then .ok self
   else
-    match reserve sz self other.len with
+    match reserve sz self (Gen.ListGuards.extend_reserve self.view other.view) with
     | .error f => .error f
     | .ok s1 =>
       match readAll other with
       | .error f => .error f
-      | .ok xs => .ok { s1 with elems := s1.elems.take s1.len ++ xs, len := s1.len + other.len }
+      | .ok xs => .ok { s1 with elems := s1.elems.take s1.len ++ xs,
+                                len := s1.len + Gen.ListGuards.extend_len_add s1.view other.view }
 
 /-- the loop of `ErasedList::eq` after the length test -/
 def eqLoop (a b : RawList) : Nat → Nat → E Bool
